@@ -10,6 +10,8 @@ Driver handlers for the model of pymeeus/Interpolation.py (property C12).
   interp_deriv [xs] [ys] tol x     `... i.derivative(x)`
   interp_root  [xs] [ys] tol xl xh max_iter     `... i.root(xl, xh, max_iter)`
   interp_minmax [xs] [ys] tol xl xh max_iter    `... i.minmax(xl, xh, max_iter)`
+  planetary_conjunction [a1] [d1] [a2] [d2]     coordinates in degrees -> n_0 dd (degrees)
+  planet_star_conjunction [a] [d] astar dstar
 -/
 namespace Driver
 open Pymeeus
@@ -25,7 +27,7 @@ def toArg : Arg → PyArg
   | _ => .other
 def showI : PyRes Interp → String
   | .error e => "E:" ++ toString e
-  | .ok o => outL (o.x ++ o.y ++ o.table)
+  | .ok o => if o.x.isEmpty then "empty" else outL (o.x ++ o.y ++ o.table)
 def mk (xs ys : List Rat) (tol : Rat) : PyRes Interp :=
   (set TOL [.list xs, .list ys]).map (fun o => { o with tol := tol })
 end IQ
@@ -39,7 +41,7 @@ def toArg : Arg → PyArg
   | _ => .other
 def showI : PyRes Interp → String
   | .error e => "E:" ++ toString e
-  | .ok o => outL (o.x ++ o.y ++ o.table)
+  | .ok o => if o.x.isEmpty then "empty" else outL (o.x ++ o.y ++ o.table)
 def mk (xs ys : List Float) (tol : Float) : PyRes Interp :=
   (set TOL [.list xs, .list ys]).map (fun o => { o with tol := tol })
 end IF
@@ -52,6 +54,8 @@ def interpQ : Handler := fun fn a =>
   | "interp_deriv" => some <| out (IQ.mk a[0]!.ql a[1]!.ql a[2]!.q >>= fun o => derivative o a[3]!.q)
   | "interp_root" => some <| out (IQ.mk a[0]!.ql a[1]!.ql a[2]!.q >>= fun o => root o a[3]!.q a[4]!.q a[5]!.i)
   | "interp_minmax" => some <| out (IQ.mk a[0]!.ql a[1]!.ql a[2]!.q >>= fun o => minmax o a[3]!.q a[4]!.q a[5]!.i)
+  | "planetary_conjunction" => some <| out (planetary_conjunction a[0]!.ql a[1]!.ql a[2]!.ql a[3]!.ql)
+  | "planet_star_conjunction" => some <| out (planet_star_conjunction a[0]!.ql a[1]!.ql a[2]!.q a[3]!.q)
   | _ => none
 
 def interpF : Handler := fun fn a =>
@@ -62,6 +66,8 @@ def interpF : Handler := fun fn a =>
   | "interp_deriv" => some <| out (IF.mk a[0]!.fl a[1]!.fl a[2]!.f >>= fun o => derivative o a[3]!.f)
   | "interp_root" => some <| out (IF.mk a[0]!.fl a[1]!.fl a[2]!.f >>= fun o => root o a[3]!.f a[4]!.f a[5]!.i)
   | "interp_minmax" => some <| out (IF.mk a[0]!.fl a[1]!.fl a[2]!.f >>= fun o => minmax o a[3]!.f a[4]!.f a[5]!.i)
+  | "planetary_conjunction" => some <| out (planetary_conjunction a[0]!.fl a[1]!.fl a[2]!.fl a[3]!.fl)
+  | "planet_star_conjunction" => some <| out (planet_star_conjunction a[0]!.fl a[1]!.fl a[2]!.f a[3]!.f)
   | _ => none
 
 end Driver
